@@ -51,6 +51,23 @@ Definition reconstructs_f (tol : float) (sh : list nat) (ops : list (gop (K:=FC)
   reconstructs_b FOps (fc_close tol) sh ops U.
 Definition reconstructs_phase_f (tol : float) (sh : list nat) (ops : list (gop (K:=FC))) (U : FM) : bool :=
   fcll_close_phase tol (circ_unitary FOps sh ops) U.
+(* "up to global phase" means: for SOME unit factor.  fcll_close_phase aligns the phase at the entry of largest modulus (a valid witness, but
+   up to twice the best residual when the difference is itself a relative phase, e.g. a dropped Z rotation); the second witness is the phase
+   of the inner product <U, product>, the minimiser of the Frobenius distance.  Either witness establishes the statement. *)
+Fixpoint fcl_inner (a b : list FC) : FC :=
+  match a, b with
+  | x :: a', y :: b' => fc_add (fc_mul x (fc_conj y)) (fcl_inner a' b')
+  | _, _ => (0, 0)
+  end.
+Definition fcl_close_iphase (tol : float) (a b : list FC) : bool :=
+  let s := fcl_inner a b in
+  let n := sqrt (fc_norm2 s) in
+  if PrimFloat.leb n 0x1p-30 then fcl_close tol a b
+  else let f : FC := (fst s / n, snd s / n) in fcl_close tol a (map (fc_mul f) b).
+Definition fcll_close_anyphase (tol : float) (a b : list (list FC)) : bool :=
+  fcll_close_phase tol a b || (Nat.eqb (length a) (length b) && fcl_close_iphase tol (concat a) (concat b)).
+Definition reconstructs_anyphase_f (tol : float) (sh : list nat) (ops : list (gop (K:=FC))) (U : FM) : bool :=
+  fcll_close_anyphase tol (circ_unitary FOps sh ops) U.
 (* state preparation: the first column of the circuit's unitary *)
 Definition prepares_phase_f (tol : float) (sh : list nat) (ops : list (gop (K:=FC))) (psi : list FC) : bool :=
   fcl_close_phase tol (circ_state FOps sh ops (basis FOps sh 0)) psi.
